@@ -5,7 +5,7 @@ ID = 'C15'
 FUNCTIONS = ['flowdyn.modeldisc.fvm2dcart.{calc_grad,calc_bc_grad,interp_face,calc_bc,calc_flux,calc_res}', 'flowdyn.xnum.{extrapol2d1,extrapol2dk}.interp_face',
              'flowdyn.mesh2d.mesh2d.*', 'flowdyn.modelphy.euler.euler2d.{numflux_centeredflux,numflux_hlle,_derived_fromprim,_Roe_average,bc_sym,bc_insub,bc_insup,bc_outsub,bc_outsup,cons2prim,prim2cons}',
              'flowdyn.modeldisc.fvm1d.*', 'flowdyn.xnum.{extrapol1,extrapolk}.interp_face', 'flowdyn.modelphy.euler.euler1d.* (1D counterparts)']
-BOUNDS = ('grids (nx,ny) in {(3,2),(2,3)} (thorough + (3,3),(4,3),(3,4)), lx != ly symbolic; all admissible data symbolic; fluxes centered, hlle; '
+BOUNDS = ('grids (nx,ny) in {(3,2),(2,3)} (thorough + (3,3)), lx != ly symbolic; all admissible data symbolic; fluxes centered, hlle; '
           'reconstructions extrapol2d1 and extrapol2dk(kappa symbolic); (1) data constant along y (resp. x) with a uniform transverse velocity w '
           '(symbolic, incl. 0): rows (columns) of the 2D operator vs the 1D operator on the row, boundary pairs per, insub/outsub, insup/outsup with '
           'walls or periodicity on the other two sides, and wall/outsub with w != 0; (2) transposition (nx<->ny, lx<->ly, u<->v, boundary dictionary transposed); (3) reflection in x '
@@ -19,10 +19,11 @@ EXPLANATION = 'Two symbolic runs (2D vs 1D, or 2D vs transformed 2D) of the real
 def configs(tier):
     out = []
     q = tier == 'quick'
-    grids = [(3, 2), (2, 3)] if q else [(3, 2), (2, 3), (3, 3), (4, 3), (3, 4)]
+    grids = [(3, 2), (2, 3)] if q else [(3, 2), (2, 3), (3, 3)]
     gs = ['2'] if q else ['2', '7/5']
     for g in gs:
-        for nx, ny in grids:
+        # (the thorough tier is sized to end within about an hour on 16 cores: gamma = 7/5 on the two quick grids only)
+        for nx, ny in (grids if g == '2' else grids[:2]):
             for fl in ('centered', 'hlle'):
                 for num in ('extrapol2d1', 'extrapol2dk'):
                     if q and fl == 'hlle' and num == 'extrapol2dk':
@@ -41,10 +42,20 @@ def configs(tier):
                             if q and (nx, ny) != (3, 2) and bcset in ('duct-sup', 'walls'):
                                 continue
                             out.append(dict(base, part='reflect', axis=ax, bcset=bcset))
+    if not q:
+        # thorough = the quick set + (3,3) and gamma = 7/5 for the centered flux + hlle with extrapol2dk on the (3,2) grid
+        def keep(c):
+            small = (c['nx'], c['ny']) in ((3, 2), (2, 3))
+            if c['flux'] == 'centered':
+                return True
+            if c['num'] == 'extrapol2dk':
+                return c['gamma'] == '2' and (c['nx'], c['ny']) == (3, 2)
+            return c['gamma'] == '2' and small
+        out = [c for c in out if keep(c)]
     for c in out:
         if c['flux'] == 'hlle':
             c['timeout_ms'] = 60000 if q else 300000
-            c['budget_s'] = 290 if q else 1500
+            c['budget_s'] = 290 if q else 900
     return out
 
 
